@@ -6,7 +6,10 @@
 package operators
 
 import (
+	"crypto/sha256"
+	"encoding/hex"
 	"fmt"
+	"strings"
 
 	ahocorasick "github.com/petar-dambovaliev/aho-corasick"
 
@@ -45,7 +48,10 @@ func newPMFromDataset(options plugintypes.OperatorOptions) (plugintypes.Operator
 		DFA:                  true,
 	})
 
-	m, _ := memoizeDo(options.Memoizer, data, func() (any, error) { return builder.Build(dataset), nil })
+	// The cache key is derived from the phrases, not from the data set name: another WAF may
+	// define different content under the same name.
+	sum := sha256.Sum256([]byte(strings.Join(dataset, "\n")))
+	m, _ := memoizeDo(options.Memoizer, "pmFromDataset:"+hex.EncodeToString(sum[:]), func() (any, error) { return builder.Build(dataset), nil })
 
 	return &pm{matcher: m.(ahocorasick.AhoCorasick), minLen: minPatternLen(dataset)}, nil
 }
